@@ -662,9 +662,11 @@ class TheoremStream(C08Stream):
         return k if k in getattr(self, "_hyp", ()) else None
 
 
+import c08s6      # noqa: E402  (needs the definitions above)
+
 PROPERTY = Property(
     pid="C08",
-    streams=[BodiesStream(), ExhaustiveStream(), TheoremStream(), AnnotateStream(), CliStream(), LongLineStream()],
+    streams=[BodiesStream(), ExhaustiveStream(), TheoremStream(), AnnotateStream(), CliStream(), LongLineStream()] + c08s6.STREAMS,
     assumptions=[
         "line-level statements are about texts whose only line boundary after normalisation is \\n (Spec.NoExoticBreaks); with \\v \\f "
         "\\x1c-\\x1e \\x85 U+2028 U+2029 inside a line the model (full str.splitlines) and the code are compared, the oracle is not applied",
